@@ -434,6 +434,82 @@ def visitor_methods():
     return sorted(n[len("visit_"):] for n in dir(annotations._Visitor) if n.startswith("visit_"))
 
 
+FOLD_FILES = ["name_check_visitor.py", "implementation.py", "format_strings.py", "boolability.py", "predicates.py", "value.py"]
+_FOLD_BUILTINS = {"format", "ascii", "repr", "str", "int", "len", "hash", "bool", "iter", "next", "sorted", "float", "abs", "divmod", "pow", "round", "isinstance",
+                  "issubclass", "list", "tuple", "set", "dict"}
+
+
+def _uses_val(n):
+    return any(isinstance(x, ast.Attribute) and x.attr == "val" for x in ast.walk(n))
+
+
+def _fold_reasons(body):
+    """Why a `try:` body counts as executing an operation on statically known values (`.val` of KnownValues)."""
+    why = set()
+    for st in body:
+        for n in ast.walk(st):
+            if isinstance(n, ast.Call):
+                f = n.func
+                fname = f.id if isinstance(f, ast.Name) else None
+                if fname in _FOLD_BUILTINS and (any(_uses_val(a) for a in n.args) or (fname in ("format", "ascii", "repr", "str", "int", "len", "hash", "iter") and
+                                                                                      any(isinstance(a, ast.Name) for a in n.args))):
+                    why.add(fname + "()")
+                if isinstance(f, ast.Attribute) and isinstance(f.value, ast.Name) and f.value.id == "operator":
+                    why.add("operator." + f.attr)
+                if fname in ("op", "op_func", "operator_func", "func", "fn", "callee", "predicate") or (isinstance(f, ast.Attribute) and f.attr == "val"):
+                    why.add("call:" + (fname or "x.val"))
+            if isinstance(n, (ast.BinOp, ast.Compare, ast.UnaryOp, ast.Subscript)) and _uses_val(n) and not isinstance(getattr(n, "ctx", None), ast.Store):
+                why.add(type(n).__name__ + " on .val")
+    return sorted(why)
+
+
+def fold_sites():
+    """(sites, unguarded): every `try:` of the constant-folding files whose body applies an operation to known values, with the
+    exception classes its handlers name; and the fold expressions that sit outside every try."""
+    repo = os.environ.get("VERIF_REPO", "/repo")
+    sites, unguarded = [], []
+    for fn in FOLD_FILES:
+        tree = ast.parse(open(os.path.join(repo, "pyanalyze", fn)).read())
+
+        def visit(node, qual, in_try):
+            for field, val in ast.iter_fields(node):
+                for ch in (val if isinstance(val, list) else [val]):
+                    if not isinstance(ch, ast.AST):
+                        continue
+                    q = qual
+                    if isinstance(ch, (ast.FunctionDef, ast.AsyncFunctionDef, ast.ClassDef)):
+                        q = (qual + "." if qual else "") + ch.name
+                    t = in_try or (isinstance(node, ast.Try) and field == "body")
+                    if isinstance(ch, ast.Try):
+                        why = _fold_reasons(ch.body)
+                        if why:
+                            caught = []
+                            for h in ch.handlers:
+                                if h.type is None:
+                                    caught.append("BaseException")
+                                else:
+                                    caught += [ast.unparse(x) for x in (h.type.elts if isinstance(h.type, ast.Tuple) else [h.type])]
+                            sites.append((fn, qual, caught, why))
+                    if not t:
+                        txt = None
+                        if isinstance(ch, ast.Call) and isinstance(ch.func, ast.Name) and ch.func.id in (
+                                "format", "ascii", "repr", "int", "len", "hash", "iter", "float", "sorted", "divmod", "pow", "abs", "round", "str") and any(_uses_val(a) for a in ch.args):
+                            txt = ast.unparse(ch)
+                        elif isinstance(ch, (ast.BinOp, ast.UnaryOp)) and not isinstance(getattr(ch, "op", None), ast.Not) and all(not isinstance(x, ast.Call) for x in ast.walk(ch)) and \
+                                any(isinstance(x, ast.Attribute) and x.attr == "val" for x in (getattr(ch, "left", None), getattr(ch, "right", None), getattr(ch, "operand", None))):
+                            txt = ast.unparse(ch)
+                        elif isinstance(ch, ast.Compare) and any(isinstance(o, (ast.Lt, ast.LtE, ast.Gt, ast.GtE, ast.In, ast.NotIn)) for o in ch.ops) and \
+                                any(isinstance(x, ast.Attribute) and x.attr == "val" for x in [ch.left] + ch.comparators):
+                            txt = ast.unparse(ch)
+                        elif isinstance(ch, ast.FormattedValue) and ch.conversion in (ord("r"), ord("a"), ord("s")) and _uses_val(ch.value):
+                            txt = "f'{%s!%s}'" % (ast.unparse(ch.value), chr(ch.conversion))
+                        if txt is not None:
+                            unguarded.append((fn, qual, txt[:80]))
+                    visit(ch, q, t)
+        visit(tree, "", False)
+    return sites, unguarded
+
+
 def forwardref_routes():
     """[(description, re-enters the evaluator, inside `with ctx.add_evaluation(val)`)] for every `return` of the ForwardRef
     branch of annotations._type_from_runtime (found by its test `is_instance_of_typing_name(val, "ForwardRef")`)."""
@@ -510,6 +586,23 @@ def translate(ctx):
         "end Pya.C12.Gen\n"
     ) % ", ".join("(%s, %s, %s)" % (_lean_str(d), "true" if rec else "false", "true" if guarded else "false") for d, rec, guarded in routes)
     lean.write_if_changed(os.path.join(lean.LEAN, "PyaModel", "Generated", "TfrRoutes.lean"), rtext)
+    sites, unguarded = fold_sites()
+    if len(sites) < 10:
+        raise ValueError("fold-site scan found only %d try blocks: the scanned files changed shape" % len(sites))
+    ftext = (
+        "/-! Regenerated by harness/props/c12.py `translate` from the live pyanalyze; do not edit. -/\n"
+        "namespace Pya.C12.Gen\n\n"
+        "/-- every `try:` whose body executes an operation on statically known values: (file, function, exception classes caught) -/\n"
+        "def foldSites : List (String × String × List String) := [\n  %s]\n\n"
+        "/-- such operations outside every `try:`: (file, function, expression) -/\n"
+        "def unguardedFolds : List (String × String × String) := [\n  %s]\n\n"
+        "end Pya.C12.Gen\n"
+    ) % (",\n  ".join("(%s, %s, [%s])" % (_lean_str(f), _lean_str(q), ", ".join(_lean_str(c) for c in caught)) for f, q, caught, _ in sites),
+         ",\n  ".join("(%s, %s, %s)" % (_lean_str(f), _lean_str(q), _lean_str(t)) for f, q, t in unguarded))
+    lean.write_if_changed(os.path.join(lean.LEAN, "PyaModel", "Generated", "FoldSites.lean"), ftext)
+    if ctx is not None:
+        ctx.extra["fold_sites"] = {"try_sites": len(sites), "narrow": [(f, q, c) for f, q, c, _ in sites if "Exception" not in c and "BaseException" not in c],
+                                   "outside_any_try": unguarded}
     from harness.common import values as V
     tb, changed = V.regenerate_class_table()
     if ctx is not None:
@@ -683,6 +776,8 @@ def _p_annot_call(tree, ln, col, det, ctxd):
 
 
 def _p_string_position(tree, ln, col, det, ctxd):
+    if ln is None or col is None:
+        return False
     for a in annotation_exprs([tree]):
         pass
     for n in ast.walk(tree):
@@ -802,7 +897,8 @@ KNOWN_CLASSES = [
     # witnesses stay in corpus/C12.jsonl as regression cases): annotCtorCall 0e3888a, whileOutsideFunction 211255f,
     # classKeywordImplicitAny 3858618, sliceLiteralBounds 97cec89, overloadDetailEllipsis 633bfb7, suggestedTypeOfMetaclass fcd36f7, matchValueNotLiteral 9d3b0d2,
     # constrainedTypeVarBoolability 67ee234, overloadStarArgs 5bac5ce, versionInfoCompareRaises 8c71858, protocolCacheKeyUnhashable 9d530d5,
-    # moduleAnnotationUncaught dd2d4d8, annotatedEmptyArgs 98aa7df, callableParamSpecNotLast c190182, unsupportedAnnotNode 9c1e869, boundsDedupUnhashable 766092b.
+    # moduleAnnotationUncaught dd2d4d8, annotatedEmptyArgs 98aa7df, callableParamSpecNotLast c190182, unsupportedAnnotNode 9c1e869, boundsDedupUnhashable 766092b,
+    # recursiveTypeVarConstraint 69dd78e, pep695AliasUnhashableArgs 6363fee.
     # (class, kinds, signature test, syntactic predicate on (tree, lineno, col, detail, ctx))
     ("userCodeRaises", ("internal_error", "raises"), lambda s, d: _user_frames(d), lambda *a: True),
     ("metaclassAttrRecursion", ("internal_error",), lambda s, d: s[0] == "RecursionError" and "has_attribute" in s[1],
@@ -810,19 +906,28 @@ KNOWN_CLASSES = [
                                                                      (isinstance(n.value, ast.Call) and isinstance(n.value.func, ast.Name) and n.value.func.id == "type"))
                                   for n in _under(t, ln, col))),
     ("constrainedTypeVarAttribute", ("internal_error",), lambda s, d: s == ("TypeError", "attributes.py::get_attribute") and "unwrap MultiValuedValue" in d.get("tail", ""),
-     _p_typevar_constraints),
+     # get_root_value() unwraps Annotated / TypeVar / TypeAliasValue down to a union: a constrained TypeVar, or a PEP 695 alias of a union
+     lambda t, ln, col, d, c: _p_typevar_constraints(t, ln, col, d, c) or any(isinstance(n, ast.TypeAlias) for n in ast.walk(t))),
     ("inlineParamSpecRecursion", ("internal_error",), lambda s, d: s[0] == "RecursionError" and "substitute_typevars" in s[1],
      lambda t, ln, col, d, c: any(isinstance(n, ast.Call) and (getattr(n.func, "id", None) == "ParamSpec" or getattr(n.func, "attr", None) == "ParamSpec")
                                   for a in annotation_exprs([t]) for n in ast.walk(a))),
-    ("recursiveTypeVarConstraint", ("internal_error",), lambda s, d: s[0] == "RecursionError" and "make_type_var_value" in s[1],
-     lambda t, ln, col, d, c: any(isinstance(n, ast.Call) and getattr(n.func, "id", getattr(n.func, "attr", None)) == "TypeVar" and
-                                  any(isinstance(a, ast.Constant) and isinstance(a.value, str) for a in list(n.args[1:]) + [k.value for k in n.keywords])
+    ("formatFieldUnicodeDigit", ("internal_error",), lambda s, d: s == ("ValueError", "format_strings.py::_parse_replacement_field"),
+     lambda t, ln, col, d, c: any(isinstance(n, ast.Constant) and isinstance(n.value, str) and "{" in n.value and any(ch.isdigit() and not ch.isascii() for ch in n.value)
                                   for n in ast.walk(t))),
-    ("pep695AliasUnhashableArgs", ("internal_error",), lambda s, d: s == ("TypeError", "annotations.py::get_type_alias"),
-     lambda t, ln, col, d, c: any(isinstance(n, ast.TypeAlias) for n in ast.walk(t)) and
-     any(isinstance(n, ast.Subscript) and any(isinstance(x, (ast.List, ast.Dict, ast.Set)) for x in ast.walk(n.slice)) for a in annotation_exprs([t]) for n in ast.walk(a))),
+    ("hugeIntRepr", ("internal_error",), lambda s, d: s[0] == "ValueError" and "Exceeds the limit" in d.get("tail", "") and "integer string conversion" in d.get("tail", ""),
+     lambda t, ln, col, d, c: True),
+    ("hugeRangeLen", ("internal_error",), lambda s, d: s == ("OverflowError", "value.py::concrete_values_from_iterable"),
+     lambda t, ln, col, d, c: any(isinstance(n, ast.Call) and getattr(n.func, "id", None) == "range" for n in ast.walk(t))),
+    ("deepLiteralRecursion", ("internal_error",), lambda s, d: s[0] == "RecursionError" and s[1] == "cycle:" and "while getting the repr" in d.get("description", "") + d.get("tail", "") or
+     (s[0] == "RecursionError" and s[1] == "cycle:"),
+     lambda t, ln, col, d, c: any(isinstance(n, (ast.For, ast.While)) and any(isinstance(a, ast.Assign) and isinstance(a.targets[0], ast.Name) and
+                                                                              any(isinstance(x, ast.Name) and x.id == a.targets[0].id for x in ast.walk(a.value))
+                                                                              for a in ast.walk(n)) for n in t.body)),
     ("newTypeOfNonClass", ("internal_error",), lambda s, d: s == ("AttributeError", "typeshed.py::_get_info_for_name"), _p_newtype_nonclass),
     ("stringAnnotationPosition", ("bad-col", "bad-line"), lambda s, d: True, _p_string_position),
+    ("starArgsSelfNodeMissing", ("bad-line",), lambda s, d: d.get("lineno") is None,
+     lambda t, ln, col, d, c: any(isinstance(n, ast.Call) and isinstance(n.func, ast.Attribute) and n.func.attr.startswith("__") and any(isinstance(a, ast.Starred) for a in n.args)
+                                  for n in ast.walk(t))),
     ("hugeConstantPower", ("timeout",), lambda s, d: True, _p_huge_power),
 ]
 
